@@ -17,6 +17,7 @@ RULE = ('Same windows as C12 (every start date 2019-12-01..2024-03-31 x start ti
 RULE += " After-session part also: the session's own rebalance_schedule equals the oracle schedule, its sim_engine emits exactly the clock of the range and contains every scheduled instant, and weekly sessions with rebalance_weekday in {'', SAT, SUN, WEEKLY} are rejected with ValueError. Three sessions per shard are RUN (start time of day 00:00 ... 23:30, no burn-in, fixed/single alpha) and must rebalance at every instant of their schedule."
 RULE += ' Quick tier also: every start date within three days of a month boundary (lengths 0, 2, 9, 33). A quarter of the oracle clocks and every session clock are looked at (next(iter(.))) before the full pass. A session may hold its schedule cut at its burn-in.'
 RULE += " 40% of the run sessions end at the start's time of day (00:00..00:00, 14:30:01..14:30:01, ...)."
+RULE += ' A fifth of the random ranges start between 1950 and 1969.'
 ASSUMPTIONS = ['UTC timestamps; end time-of-day not before the start\'s (the quantifier)']
 EXHAUSTIVE = {'thorough': 'all (start date in 2019-12-01..2024-03-31) x (start 00:00|14:30) x (length 0..45 d) x '
                           '(5 weekdays x 2 flags + daily x 2 + end-of-month x 2 + buy-and-hold)'}
